@@ -267,6 +267,7 @@ type entryPoint struct {
 	Name        string
 	Zip         bool // needs /t/a.zip
 	RenameFails bool // the back end refuses Rename (cross-device), which sends Move down its copy-and-delete path
+	LstatFault  int  // the j-th Lstat fails once with EIO (read-side fault: it is then unknown whether the path is a link); 0: never
 	RemoveFault int  // the back end refuses its j-th Remove once with EPERM (steers RemoveWithPrivileges into its escalation path); 0: never
 	Concurrent  bool // fans out goroutines that may outlive the call: wait for the back end to go quiet before counting
 	Prep        func(e *fsEnv) error
@@ -324,6 +325,7 @@ func entryPoints() []entryPoint {
 		}},
 		{Name: "RemoveWithPrivileges", Methods: []string{"RemoveWithPrivileges"}, Run: func(ctx context.Context, e *fsEnv) error { return e.fs.RemoveWithPrivileges(ctx, e.P("/t/src")) }},
 		{Name: "RemoveWithPrivilegesFault1", RemoveFault: 1, Methods: []string{"RemoveWithPrivileges"}, Run: func(ctx context.Context, e *fsEnv) error { return e.fs.RemoveWithPrivileges(ctx, e.P("/t/src")) }},
+		{Name: "RemoveWithPrivilegesLstatFault3", LstatFault: 3, Methods: []string{"RemoveWithPrivileges"}, Run: func(ctx context.Context, e *fsEnv) error { return e.fs.RemoveWithPrivileges(ctx, e.P("/t/src")) }},
 		{Name: "RemoveWithPrivilegesFault4", RemoveFault: 4, Methods: []string{"RemoveWithPrivileges"}, Run: func(ctx context.Context, e *fsEnv) error { return e.fs.RemoveWithPrivileges(ctx, e.P("/t/src")) }},
 		{Name: "Chmod", Methods: []string{"ChmodRecursively"}, Run: func(ctx context.Context, e *fsEnv) error { return e.fs.ChmodRecursively(ctx, e.P("/t/src"), 0o700) }},
 		{Name: "ChmodFile", Methods: []string{"ChmodRecursively"}, Run: func(ctx context.Context, e *fsEnv) error {
@@ -567,7 +569,7 @@ func runFS(ep *entryPoint, spec treeSpec, mode string, k int64, wantFinal bool, 
 		endCtx()
 	}
 	var fired atomic.Bool
-	var removes atomic.Int64
+	var removes, lstats atomic.Int64
 	base := e.sh.Count()
 	e.sh.ResetLog()
 	e.sh.Rec = true
@@ -583,6 +585,9 @@ func runFS(ep *entryPoint, spec treeSpec, mode string, k int64, wantFinal bool, 
 		}
 		if ep.RemoveFault > 0 && op.Name == "Remove" && removes.Add(1) == int64(ep.RemoveFault) {
 			return &os.PathError{Op: "remove", Path: op.Path, Err: syscall.EPERM}
+		}
+		if ep.LstatFault > 0 && op.Name == "Lstat" && lstats.Add(1) == int64(ep.LstatFault) {
+			return &os.PathError{Op: "lstat", Path: op.Path, Err: syscall.EIO}
 		}
 		return nil
 	})
